@@ -40,7 +40,7 @@ class RawModel(Model):
         self.links = self.links_in if direction == "in" else self.links_out
         self.last = fs.header_last_id()
         # every id up to the one in the header may have been issued; ids above it must not appear
-        self.issued = list(range(1, max([self.last] + list(self.pref.values())) + 1))
+        self.issued = sorted(set(range(1, self.last + 1)) | set(self.pref.values()))  # (ids may be the caller's own, far above the header's)
         self.probe = Counter()
 
 
